@@ -699,3 +699,98 @@ def k_nasty(p):
 
 
 KINDS.update({"nasty": k_nasty})
+
+
+def _norm(x):
+    if isinstance(x, np.ndarray):
+        return ("arr", x.dtype.kind, x.tolist())
+    if isinstance(x, (np.integer,)):
+        return int(x)
+    if isinstance(x, (np.floating, float)):
+        return round(float(x), 12)
+    if isinstance(x, (np.bool_,)):
+        return bool(x)
+    if isinstance(x, (list, tuple)):
+        return [_norm(y) for y in x]
+    if isinstance(x, dict):
+        return sorted((_norm(a), _norm(b)) for a, b in x.items())
+    return x
+
+
+def _build_env(spec):
+    import dsw
+    env = {}
+    for name, (kind, val) in spec.items():
+        if kind == "arr":
+            env[name] = np.array(val["data"], dtype={"bool": bool, "int64": int, "float64": float}[val["dtype"]])
+        elif kind == "filter":
+            env[name] = dsw.LocalBioFilter(**val)
+        elif kind == "dict":
+            env[name] = {int(a): list(b) for a, b in val}
+        else:
+            env[name] = val
+    return env
+
+
+def _run_history(scenario, spec, isolate):
+    import importlib
+    import contextlib, io
+    import dsw
+    import scenarios
+    if isolate:
+        for m in ("dsw.operation", "dsw.graphized", "dsw.biofilter", "dsw.spiderweb", "dsw"):
+            importlib.reload(importlib.import_module(m))
+        import dsw  # noqa
+    env = _build_env(spec)
+    out = {}
+    last = None
+    for label, fn, a, kw in scenarios.SCENARIOS[scenario](env):
+        if fn is None:
+            if label == "TRIM-LAST-RESULT":
+                if not isolate and isinstance(last, np.ndarray):
+                    last[...] = -1
+            elif label == "DRAW":
+                if not isolate:
+                    np.random.random(5)
+            elif label.startswith("SEED-"):
+                np.random.seed(int(label[5:]))
+            continue
+        if isolate:
+            env2 = _build_env(spec)
+            a2 = scenarios.SCENARIOS[scenario](env2)
+            a, kw = [(x[2], x[3]) for x in a2 if x[0] == label][0]
+        buf = io.StringIO()
+        with contextlib.redirect_stdout(buf):
+            r, ex = call(getattr(dsw, fn), *a, **kw)
+        last = r
+        out[label] = ("exc", ex.split(":")[0]) if ex else ("ok", _norm(r))
+    return out, env
+
+
+def k_history(p):
+    """C20: a call history on shared arguments vs the same calls in isolation (modules reloaded, fresh arguments)."""
+    scenario, spec = p["scenario"], p["env"]
+    hist, env = _run_history(scenario, spec, False)
+    fresh = _build_env(spec)
+    for name in spec:
+        if spec[name][0] == "filter":
+            if vars(env[name]) != vars(fresh[name]):
+                return True, "shared filter object was modified by the history"
+        elif _norm(env[name]) != _norm(fresh[name]):
+            return True, "shared argument %r was modified by the history: %s -> %s" % (name, str(_norm(fresh[name]))[:120], str(_norm(env[name]))[:120])
+    iso, _ = _run_history(scenario, spec, True)
+    for label in hist:
+        if hist[label] != iso[label]:
+            return True, "call %r returns %s in the history but %s on fresh arguments in a fresh process" % (label, str(hist[label])[:160], str(iso[label])[:160])
+    if scenario == "verbose":
+        for label in hist:
+            if label.startswith("verbose-"):
+                q = "quiet-" + label[8:]
+                if hist[label][0] == "exc" and hist[q][0] != "exc":
+                    return True, "verbose=True raises %s (call %s)" % (hist[label][1], label)
+                if hist[label] != hist[q]:
+                    return True, "verbose=True changes the result of call %s" % label
+    return False, "history of %d calls is equal to isolated calls" % len(hist)
+
+
+KINDS.update({"history": k_history})
